@@ -19,7 +19,8 @@ for p in $PROPS; do
   out=$(./check "$p" --tier quick 2>&1); rc=$?
   echo "$p rc=$rc" >> "$ROUND/results/BASELINE.txt"
 done
-for d in "$ROUND"/*/_mutant; do
+SUB="${SUB:-_mutant}"
+for d in "$ROUND"/*/"$SUB"; do
   id=$(basename "$(dirname "$d")")
   [ -f "$d/patch.diff" ] || continue
   [ -f "$ROUND/results/$id.txt" ] && continue
